@@ -1074,7 +1074,7 @@ package ucfg
 //@ requires len(c.fields.a) + len(c.fields.d) <= 9223372036854775807
 //@ ensures [typed @C14] isTyped(err)
 //@ ensures [all @C12] name == "" ==> err == nil && n == len(old(c.fields.a)) + len(old(c.fields.d))
-//@ ensures [missing @C12] name != "" && !old(has(c.fields.d, name)) ==> err != nil
+//@ ensures [path_addressed @C12] name != "" && err == nil ==> exists o *options :: pathOk(pathFor(name, o), c) && pathVal(pathFor(name, o), c) != nil
 
 //@ func (*Config).Child :: c, name, idx, opts -> r, err
 //@ props C14 C11
